@@ -114,7 +114,7 @@ def switch_decisions(body, bb):
     if l is None:
         if discr[0] in ("cp", "mv") and len(t) > 4 and t[4] == "bool":
             r = root_of(body, discr)
-            if r is not None and r[0] in ("arg", "local"):
+            if r is not None and r[0] in ("arg", "local", "call"):
                 atom = ("flag", r)
                 res = [(b, atom + (bool(int(v)),)) for v, b in arms]
                 vals = [int(v) for v, _ in arms]
@@ -148,7 +148,7 @@ def switch_decisions(body, bb):
         # a plain bool flag (field / parameter / named variable)
         if t[4] == "bool" if len(t) > 4 else False:
             r = root_of(body, discr)
-            if r is not None and r[0] in ("arg", "local"):
+            if r is not None and r[0] in ("arg", "local", "call"):
                 atom = ("flag", r)
     if atom is None:
         return None
